@@ -65,7 +65,7 @@ def _has_nonzero(tabs):
 class C16(Prop):
     id = "C16"
     level = "fault_enumeration"
-    RUNS = {"quick": 900, "thorough": 12000}
+    RUNS = {"quick": 1800, "thorough": 12000}
     BUDGET = {"quick": 80, "thorough": 900}
     ORACLES = ("O-ERR",)
     RULE = ("enumerated: object kind {leaf / derived point, leaf / derived expression, user / class constraint, LMI, "
